@@ -43,6 +43,10 @@ type gctx struct {
 	nodes int
 	max   int
 	ops   map[string]bool
+	pools []ConstSet // constants of the readers of the elements being generated (innermost last); see producer.go
+	salt  int64      // per-case salt of the distinct values (drawn at first use)
+	uniq  int64      // distinct values handed out so far
+	uniqP int        // 0..10: how many of the attribute slots get a value no other slot has
 }
 
 func (g *gctx) qname(local string) string {
@@ -78,6 +82,31 @@ func (g *gctx) attrValue(elem, a string) string {
 		s, _ := gen.Text(t, "attr", gen.ClsXMLMeta, gen.ClsUnicode, gen.ClsEmpty, gen.ClsBlank, gen.ClsLong)
 		return s
 	}
+	// constants a value read from this very element is compared with / sliced by somewhere in the library
+	if len(g.v.Own[elem]) > 0 && chance(t, "own-attr", 500) {
+		if s, ok := g.ownValue(elem); ok {
+			return s
+		}
+	}
+	// below an element whose reader compares values against string constants: those constants, composed and truncated
+	if len(g.pools) > 0 && rapid.IntRange(0, 9).Draw(t, "pool-attr") < 4 {
+		if s, ok := g.poolValue(); ok {
+			return s
+		}
+	}
+	if len(g.v.Global) > 0 && rapid.IntRange(0, 39).Draw(t, "global-const") == 0 {
+		s := rapid.SampledFrom(g.v.Global).Draw(t, "global")
+		if rapid.IntRange(0, 3).Draw(t, "global-trunc") == 0 {
+			s = g.truncate(s)
+		}
+		return s
+	}
+	// a value no other slot carries (ids, names, widths, colours differ from element to element and from document to document)
+	if g.uniqP > 0 && rapid.IntRange(0, 9).Draw(t, "uniq-attr") < g.uniqP {
+		if k, pfx := uniqueKind(elem, a); k != "" {
+			return g.uniqueValue(k, pfx)
+		}
+	}
 	switch {
 	case elem == "pStyle" || elem == "tblStyle":
 		return rapid.SampledFrom(styleVals).Draw(t, "style")
@@ -98,6 +127,9 @@ func (g *gctx) attrValue(elem, a string) string {
 func (g *gctx) elem(local string, depth int, cols int) Node {
 	t := g.t
 	g.nodes++
+	if len(g.v.Pools[local]) > 0 {
+		defer g.pushPool(local)()
+	}
 	n := Node{N: g.qname(local)}
 	for _, a := range g.v.Attrs[local] {
 		if rapid.IntRange(0, 9).Draw(t, "attr?") < 7 {
@@ -118,6 +150,10 @@ func (g *gctx) elem(local string, depth int, cols int) Node {
 			classes = gen.AllClasses
 		}
 		n.T, _ = gen.Text(t, "text", classes...)
+		return n
+	}
+	if local == "instrText" {
+		n.T = g.instruction()
 		return n
 	}
 	kids := g.v.Children[local]
@@ -195,6 +231,19 @@ func (g *gctx) mainTree() *Node {
 		name := rapid.SampledFrom(append(append([]string{}, g.v.Body...), "tbl", "p")).Draw(t, "block")
 		if name == "sectPr" && i < k-1 && rapid.Bool().Draw(t, "sect-last") {
 			name = "p"
+		}
+		if chance(t, "producer-block", 220) {
+			// content controls and fields as other producers write them (producer.go)
+			switch pick(t, "producer-kind", 6) {
+			case 0:
+				body.C = append(body.C, g.fieldParagraph())
+			case 1:
+				id := g.uniqueValue("n", "")
+				body.C = append(body.C, el("w:bookmarkStart", at("w:id", id, "w:name", g.uniqueValue("s", "_Toc"))), g.elem("p", 1, -1), el("w:bookmarkEnd", at("w:id", id)))
+			default:
+				body.C = append(body.C, g.sdt(0, true))
+			}
+			continue
 		}
 		if rapid.IntRange(0, 6).Draw(t, "edge-table") == 0 {
 			// explicit degenerate table shapes: no rows, only properties / grid, rows without cells
@@ -478,10 +527,21 @@ func at2(kv ...string) []Attr { return at(kv...) }
 // genMain: generator (a).
 func genMainPart(t *rapid.T, nfaults int) *XMLPart {
 	g := &gctx{t: t, v: TheVocab(), max: kit.Scale(90, 220)}
+	g.uniqP = rapid.SampledFrom([]int{0, 0, 0, 1, 1, 3, 7}).Draw(t, "uniq-density")
 	p := &XMLPart{Root: g.mainTree()}
+	// attribute values that differ from each other and from every other case: a few dozen often, thousands sometimes
+	if chance(t, "distinct", 100) {
+		size := distinctSizes()[rapid.IntRange(0, 1).Draw(t, "distinct-size")]
+		if chance(t, "distinct-more", 150) {
+			size = distinctSizes()[2]
+		}
+		g.applyDistinct(p, size)
+	}
 	for i := 0; i < nfaults; i++ {
-		op := rapid.SampledFrom(FaultOps).Draw(t, "fault")
-		g.applyFault(p, op)
+		op := FaultOps[pick(t, "fault", len(FaultOps))]
+		if !g.applyFault(p, op) {
+			g.applyFault(p, FaultOps[pick(t, "fault-instead", len(FaultOps))]) // not applicable to this tree: one other try
+		}
 	}
 	return p
 }
@@ -492,7 +552,7 @@ func genOptionalPart(t *rapid.T, name string) *XMLPart {
 	p := &XMLPart{Root: stdTree(name)}
 	n := rapid.IntRange(1, 3).Draw(t, "nfaults")
 	for i := 0; i < n; i++ {
-		op := rapid.SampledFrom(FaultOps).Draw(t, "fault")
+		op := FaultOps[pick(t, "fault", len(FaultOps))]
 		if op == "rootns" {
 			// these parts bind their namespace as default or as w:/cp: - rebind whichever is first
 			if p.Root != nil && len(p.Root.A) > 0 {
@@ -509,6 +569,10 @@ func genOptionalPart(t *rapid.T, name string) *XMLPart {
 			continue
 		}
 		g.applyFault(p, op)
+	}
+	if chance(t, "distinct-opt", 60) {
+		// the same part with hundreds / thousands of entries whose ids, names and targets all differ (kind >= 6: an existing node)
+		g.applyDistinct(p, distinctSizes()[rapid.IntRange(0, 2).Draw(t, "distinct-size")])
 	}
 	// semantic faults of the package-level parts: values a reader may trip over
 	if p.Root != nil && rapid.IntRange(0, 3).Draw(t, "semantic") == 0 {
@@ -667,10 +731,26 @@ func genCase(t *rapid.T) Case {
 	if rapid.IntRange(0, 9).Draw(t, "via") < 4 {
 		c.Via = "file"
 	}
-	switch k := rapid.IntRange(0, 19).Draw(t, "generator"); {
+	if chance(t, "sequence-of-opens", 45) {
+		// the case is a sequence of Opens: packages with tens of thousands of distinct attribute values come first
+		c.Pre = genPre(t)
+	}
+	// (a) 60%, (b) 17.5% + 5% adversarial relationship ids, (c) 5% forged zip metadata + 12.5% other container faults
+	k := 17
+	switch m := pick(t, "generator", 40); {
+	case m < 24:
+		k = 0
+	case m < 31:
+		k = 11
+	case m < 33:
+		k = 15
+	case m < 35:
+		k = 16
+	}
+	switch {
 	case k < 11: // (a) grammar + faults on the main part
 		c.Gen = "a"
-		nf := rapid.SampledFrom([]int{0, 0, 1, 1, 1, 1, 2, 2, 3}).Draw(t, "nfaults")
+		nf := []int{0, 0, 1, 1, 1, 1, 2, 2, 3}[pick(t, "nfaults", 9)]
 		c.Parts = map[string]*XMLPart{nMain: genMainPart(t, nf)}
 	case k < 16: // (b) faults on the optional parts; k == 15: well-formed relationship parts with adversarial id sets
 		c.Gen = "b"
